@@ -150,3 +150,31 @@ def gas_accessors_called(f):
         if m:
             out.append((i, m.group(1), line))
     return out
+
+
+def debugger_bypass_cases(F, f):
+    """Case analysis (fvlib.cases) of instruction_per_inner: for {debugger inactive, active & continue, active & stop}
+    is instruction_inner reached, and which other calls run. The stop / continue decision may be spelt
+    `!debug.should_continue()` or as a match on DebugEval (Continue / Breakpoint), inline or in a private helper
+    (new helpers are inlined at fact load). Returns {case: (reaches_instruction_inner, [callee short names reached])} or None."""
+    from fvlib import cases
+    from fvlib.core import callee_name, calls
+    adt = F.adt("fuel_vm::state::debug::DebugEval")
+    disc = {v["name"]: v.get("discr", k) for k, v in enumerate(adt["variants"])}
+    inner = [i for i, c, *_ in calls(f) if callee_name(c).endswith("::instruction_inner")]
+    out = {}
+    for case, (active, cont) in {"inactive": (False, True), "continue": (True, True), "stop": (True, False)}.items():
+        def oracle(kind, desc, active=active, cont=cont):
+            if kind == "call" and desc.startswith("call:is_active("):
+                return active
+            if kind == "call" and desc.startswith("call:should_continue("):
+                return cont
+            if kind == "disc" and "eval_debugger_state(" in desc:
+                return disc["Continue"] if cont else disc["Breakpoint"]
+            return None
+        reach = cases.explore(f, oracle)
+        if reach is None:
+            return None
+        names = sorted({callee_name(f["bbs"][b]["t"][1]).rsplit("::", 1)[-1] for b in reach if f["bbs"][b]["t"][0] == "call" and "def" in f["bbs"][b]["t"][1]})
+        out[case] = (any(b in reach for b in inner), names)
+    return out
